@@ -261,14 +261,18 @@ func (c *Ctx) finish(verifDir string, t0 time.Time, seed int) int {
 			"function_bodies":     len(c.P.AllFuncs),
 			"functions_analysed":  nf,
 			"functions_sample":    fns,
-			"cut_points":          c.Cuts,
-			"notes":               append(c.Notes, c.P.LoadNotes...),
-			"broken":              broken,
+			"cut_points":          nonNil(c.Cuts),
+			"notes":               nonNil(append(c.Notes, c.P.LoadNotes...)),
+			"broken":              nonNil(broken),
 			"checker_cmd":         "engine/junocheck -prop " + c.Prop + " -tier " + c.Tier,
 			"trusted_base":        []string{"go/types, go/ssa, go/callgraph/vta of golang.org/x/tools v0.50.0", "hand-confirmed rule tables in /verif/engine", "not followed: reflection, unsafe, cgo, assembly, goroutine interleavings"},
 			"exhaustive":          false,
 		},
-		"assumptions": c.Assume,
+		"assumptions": append([]string{
+			"go/types, go/ssa and the VTA call graph of golang.org/x/tools v0.50.0 are sound for the constructs used; reflection, unsafe, cgo and assembly are not followed",
+			"build configuration linux/amd64 with default tags; _test.go files are not part of the analysed program",
+			"package juno/jemalloc (cgo pkg-config) is the only tolerated load error",
+		}, c.Assume...),
 		"wall_s":      time.Since(t0).Seconds(),
 		"violations":  nViol + nUnd,
 	}
@@ -291,4 +295,12 @@ func keys(m map[string]bool) []string {
 	}
 	sort.Strings(o)
 	return o
+}
+
+
+func nonNil(s []string) []string {
+	if s == nil {
+		return []string{}
+	}
+	return s
 }
